@@ -2,6 +2,8 @@
 //   g++ -std=c++17 -I<repo>/src/Ripser/include -I<repo>/src/common/include ripser_witness.cpp -o ripser_witness
 //   ./ripser_witness upper     Compressed_distance_matrix<P, UPPER_TRIANGULAR>(const DistanceMatrix&)
 //   ./ripser_witness dim       >= 128 vertices and dim_max >= 125 (dimension_t = int8_t)
+//   ./ripser_witness mask      (compile with -DGUDHI_FORCE_FAKE_UINT128, the 128-bit integer class of platforms without
+//                              unsigned __int128) odd prime and simplices whose encoded index needs more than 64 bits
 // Each witness runs in a child process and prints what happened; exit status 1 when a defect shows.
 #include <gudhi/ripser.h>
 
@@ -72,10 +74,39 @@ static int dim() {
   return bad ? 1 : 0;
 }
 
+// set_coefficient keeps the index only below bit 64 + bits(p-1) when simplex_t is Fake_uint128: (simplex_t)(-1) is 2^64 - 1
+static int mask() {
+  int bad = in_child("Rips_filtration::set_coefficient on the index 2^100 (128-bit bit field, p = 3)", [] {
+    typedef TParams<true, Gudhi::numbers::uint128_t, double> P;
+    typedef Rips_filtration<Sparse, Bitfield_encoding<P>, P> Filt;
+    std::vector<std::vector<Sparse::vertex_diameter_t>> nb(512);
+    Filt filt(Sparse(std::move(nb)), 10, 1e9, 3);
+    Gudhi::numbers::uint128_t idx = (Gudhi::numbers::uint128_t)1 << 100;
+    auto e = filt.make_entry(idx, 1);
+    filt.set_coefficient(e, 2);
+    const bool kept = filt.get_index(e) == idx;
+    std::cout << (kept ? "index kept" : "index lost");
+    return kept ? 0 : 1;
+  });
+  // 10 of 262144 vertices (18 bits each: a tetrahedron needs 72 bits), 38 edges, dim_max 5, Z/3
+  bad += in_child("ripser_auto, sparse, 262144 vertices, dim_max 5, p = 3", [] {
+    static const int E[][3] = {{138972,146000,2},{138972,167988,2},{146000,167988,1},{146000,196159,2},{167988,196159,3},{138972,206542,2},{146000,206542,1},{167988,206542,2},{196159,206542,2},{138972,229162,1},{146000,229162,2},{167988,229162,1},{206542,229162,2},{138972,238259,2},{146000,238259,3},{167988,238259,2},{196159,238259,3},{206542,238259,3},{138972,247950,3},{146000,247950,1},{167988,247950,2},{206542,247950,3},{229162,247950,2},{238259,247950,3},{138972,252238,1},{146000,252238,3},{167988,252238,3},{196159,252238,3},{229162,252238,2},{238259,252238,1},{247950,252238,3},{138972,262143,1},{146000,262143,3},{196159,262143,1},{206542,262143,3},{229162,262143,1},{238259,262143,3},{252238,262143,2}};
+    std::vector<std::vector<Sparse::vertex_diameter_t>> nb(262144);
+    for (auto& e : E) { nb[e[0]].emplace_back(e[1], double(e[2])); nb[e[1]].emplace_back(e[0], double(e[2])); }
+    for (auto& l : nb) std::sort(l.begin(), l.end());
+    int cur = -1, shown = 0;
+    ripser_auto(Sparse(std::move(nb)), 5, std::numeric_limits<double>::infinity(), 3, [&](int d) { cur = d; },
+                [&](double b, double d) { if (b < d && !(cur == 0 && d == std::numeric_limits<double>::infinity())) { std::cout << cur << ":[" << b << "," << d << ") "; ++shown; } });
+    return 0;
+  });
+  return bad ? 1 : 0;
+}
+
 int main(int argc, char** argv) {
   const std::string w = argc > 1 ? argv[1] : "all";
   int bad = 0;
   if (w == "upper" || w == "all") bad += upper();
   if (w == "dim" || w == "all") bad += dim();
+  if (w == "mask") bad += mask();
   return bad ? 1 : 0;
 }
